@@ -64,7 +64,8 @@ def mk(rng, t, start):
     st = rng.choice(STYLES)
     c = {"fam": "render", "tree": t, "start": start, "style": st, "childiter": rng.choice(["list", "list", "reversed", "sorted", "drop_odd"]),
          "maxlevel": rng.choice([None, None, 0, 1, 2, 3]), "mode": mode, "values": values, "lines": lines,
-         "defaults": rng.random() < 0.3, "style_instance": rng.random() < 0.7}
+         "defaults": rng.random() < 0.3, "style_instance": rng.random() < 0.7,
+         "cls": rng.choice([None, None, "len", "falsy", "eq"])}
     if st == "ContStyle" and rng.random() < 0.3:
         c["default_style"] = True
     if rng.random() < 0.35:
